@@ -7,6 +7,7 @@
  * lets every other thread act on EVERY slot after the call before asserting the exclusion facts once more. */
 #define C23_INCLUDE
 #include "c22_rwlock.c"
+#include "c23_extra_methods.inc"
 #define DN KN
 #define kMask ((size_t)(KN - 1))
 typedef struct DRW { RWLockImpl slots_[KN]; } DRW;
